@@ -246,8 +246,12 @@ def _mean_over_real_corners(run, P):
         if fn_param is None or cnt_param is None:
             run.incomplete("IDX/real-corners", c, where(f), "parameters face_nodes / n_nodes_per_face not found")
             continue
-        # loop variables bound to the per-face count
-        count_vars = set()
+        defs = LocalDefs(f.node)
+        for n in ast.walk(f.node):
+            if isinstance(n, ast.comprehension):
+                defs._bind(n.target, n.iter, loop=True)
+        # loop variables bound to the per-face count:  for f, n in enumerate(cnt)   |   group loops  for n in np.unique(cnt)  (rows selected by cnt == n)
+        count_vars, group_vars = set(), set()
         for n in ast.walk(f.node):
             it = tg = None
             if isinstance(n, ast.For):
@@ -256,27 +260,125 @@ def _mean_over_real_corners(run, P):
                 it, tg = n.iter, n.target
             if it is not None and isinstance(it, ast.Call) and (dotted(it.func) or [""])[-1] == "enumerate" and it.args and norm(it.args[0]) == cnt_param and isinstance(tg, ast.Tuple) and len(tg.elts) == 2 and isinstance(tg.elts[1], ast.Name):
                 count_vars.add(tg.elts[1].id)
-        gathers = [n for n in ast.walk(f.node) if isinstance(n, ast.Subscript) and isinstance(n.value, ast.Name) and n.value.id == fn_param and isinstance(n.ctx, ast.Load)]
-        bad = []
-        good = 0
-        for g_ in gathers:
+            if it is not None and isinstance(it, ast.Call) and (dotted(it.func) or [""])[-1] == "unique" and len(it.args) == 1 and not it.keywords and norm(it.args[0]) == cnt_param and isinstance(tg, ast.Name):
+                group_vars.add(tg.id)
+
+        def rows_of_group(rowsel, gv):
+            """the row selector is (derived from)  cnt == gv"""
+            nodes, _ = defs.closure(rowsel)
+            return any(isinstance(x, ast.Compare) and len(x.ops) == 1 and isinstance(x.ops[0], ast.Eq) and {norm(x.left), norm(x.comparators[0])} == {cnt_param, gv} for e in nodes for x in ast.walk(e))
+
+        def classify(g_):
+            """good | skip | open  for one read of the corner table"""
+            if isinstance(g_, ast.Name):
+                return "open"
             sl = g_.slice
             elts = sl.elts if isinstance(sl, ast.Tuple) else [sl]
-            if len(elts) == 2 and isinstance(elts[1], ast.Slice) and elts[1].upper is not None and (norm(elts[1].upper) in count_vars or norm(elts[1].upper).startswith(cnt_param + "[")) and (elts[1].lower is None or norm(elts[1].lower) == "0"):
-                good += 1
-            elif norm(g_) in (f"{fn_param}.shape[0]", f"{fn_param}.shape") or (isinstance(sl, ast.Constant)):
-                continue
-            else:
-                # any other read of the corner table that feeds a coordinate gather
-                bad.append(g_)
-        whole = [n for n in ast.walk(f.node) if isinstance(n, ast.Name) and n.id == fn_param and isinstance(n.ctx, ast.Load)]
-        # uses of the bare table other than .shape / the count-sliced subscripts
+            if len(elts) == 2 and isinstance(elts[1], ast.Slice) and elts[1].upper is not None and elts[1].step is None and (elts[1].lower is None or norm(elts[1].lower) == "0"):
+                up = norm(elts[1].upper)
+                if up in count_vars or up.startswith(cnt_param + "["):
+                    return "good"
+                if up in group_vars and rows_of_group(elts[0], up):
+                    return "good"
+            if isinstance(sl, ast.Constant):
+                return "skip"
+            return "open"
+
+        gathers = [n for n in ast.walk(f.node) if isinstance(n, ast.Subscript) and isinstance(n.value, ast.Name) and n.value.id == fn_param and isinstance(n.ctx, ast.Load)]
         sub_ids = {id(g_.value) for g_ in gathers}
-        shape_ids = {id(n.value) for n in ast.walk(f.node) if isinstance(n, ast.Attribute) and n.attr == "shape" and isinstance(n.value, ast.Name)}
-        bare = [n for n in whole if id(n) not in sub_ids and id(n) not in shape_ids]
-        if bad or bare:
-            w = (bad or bare)[0]
-            run.violation("IDX/real-corners", c, where(f, w), f"the corner table is read as {norm(w)[:60]} (not restricted to the first n_nodes_per_face[f] entries of the row): the centre of a face with fewer corners than the row width is averaged over padding or repeated nodes")
+        shape_ids = {id(n.value) for n in ast.walk(f.node) if isinstance(n, ast.Attribute) and n.attr in ("shape", "dtype", "ndim") and isinstance(n.value, ast.Name)}
+        bare = [n for n in ast.walk(f.node) if isinstance(n, ast.Name) and n.id == fn_param and isinstance(n.ctx, ast.Load) and id(n) not in sub_ids and id(n) not in shape_ids]
+        reads = {id(g_): (g_, classify(g_)) for g_ in gathers + bare}
+        good = sum(1 for _g, k in reads.values() if k == "good")
+        opens = [g_ for g_, k in reads.values() if k == "open"]
+
+        def filtered(v):
+            """a value that keeps only the real entries of a row:  row[row != INT_FILL_VALUE]  /  row[:count]"""
+            if isinstance(v, ast.Subscript):
+                for x in ast.walk(v.slice):
+                    if isinstance(x, ast.Compare) and isinstance(x.ops[0], ast.NotEq) and any(norm(y).endswith("INT_FILL_VALUE") for y in [x.left] + x.comparators):
+                        return True
+                # row[:count] where row is one row of the table
+                if isinstance(v.slice, ast.Slice) and v.slice.upper is not None and v.slice.step is None and (v.slice.lower is None or norm(v.slice.lower) == "0") \
+                        and (norm(v.slice.upper) in count_vars or norm(v.slice.upper).startswith(cnt_param + "[")) and isinstance(v.value, ast.Name):
+                    rows = [d for (d, _i, _l) in defs.defs.get(v.value.id, [])]
+                    if rows and all(isinstance(d, ast.Subscript) and norm(d.value) == fn_param and not isinstance(d.slice, (ast.Tuple, ast.Slice)) for d in rows):
+                        return True
+            return False
+
+        def open_reads_behind(expr):
+            """open reads of the corner table in the backward slice of expr, not looking through assignments that filter the real entries"""
+            seen, out_, work = set(), [], [expr]
+
+            def nodes_outside_filters(e):
+                if filtered(e):
+                    return
+                yield e
+                for ch in ast.iter_child_nodes(e):
+                    yield from nodes_outside_filters(ch)
+            while work:
+                e = work.pop()
+                for x in nodes_outside_filters(e):
+                    if id(x) in reads and reads[id(x)][1] == "open":
+                        out_.append(x)
+                    if isinstance(x, ast.Name) and x.id not in seen:
+                        seen.add(x.id)
+                        work += [v for (v, _i, _l) in defs.defs.get(x.id, [])]
+            return out_
+
+        # definite counter-fact: a plain mean (np.mean / .mean() without where=) divides by the number of gathered entries; if the entries were gathered
+        # through rows that are not restricted to the real corners, padding / repeated nodes are averaged in.  For the centre-point routine the consumer
+        # is the enclosing-circle helper: every point handed to it counts.
+        definite = None
+        for n in ast.walk(f.node):
+            if not isinstance(n, ast.Call):
+                continue
+            nm = (dotted(n.func) or [""])[-1]
+            if nm == "mean" and not any(k.arg == "where" for k in n.keywords):
+                arg = n.args[0] if (n.args and isinstance(n.func, ast.Attribute) and isinstance(n.func.value, ast.Name) and n.func.value.id == "np") else (n.func.value if isinstance(n.func, ast.Attribute) else None)
+                if arg is not None:
+                    o = open_reads_behind(arg)
+                    if o:
+                        definite = (o[0], f"np.mean over {norm(arg)[:50]}")
+                        break
+            elif nm.startswith("_") and nm not in ("_normalize_xyz",) and isinstance(n.func, ast.Name):
+                for a_ in n.args:
+                    o = open_reads_behind(a_)
+                    if o:
+                        definite = (o[0], f"{nm}({norm(a_)[:40]}...)")
+                        break
+                if definite:
+                    break
+        if definite:
+            w, how = definite
+            run.violation("IDX/real-corners", c, where(f, w), f"the corner table is read as {norm(w)[:60]} (not restricted to the first n_nodes_per_face[f] entries of the row) and reaches {how}: the centre of a face with fewer corners than the row width is computed over padding or repeated nodes")
+        if not definite and opens:
+            # a whole row bound to a local that is only ever used through a real-entries filter is as good as a restricted gather
+            parent = {}
+            for x in ast.walk(f.node):
+                for ch in ast.iter_child_nodes(x):
+                    parent[id(ch)] = x
+            def under_filter(x):
+                while id(x) in parent:
+                    x = parent[id(x)]
+                    if filtered(x):
+                        return True
+                return False
+            still = []
+            for g_ in opens:
+                st_ = parent.get(id(g_))
+                if isinstance(st_, ast.Assign) and st_.value is g_ and len(st_.targets) == 1 and isinstance(st_.targets[0], ast.Name):
+                    r = st_.targets[0].id
+                    uses = [x for x in ast.walk(f.node) if isinstance(x, ast.Name) and x.id == r and isinstance(x.ctx, ast.Load)]
+                    if uses and all(under_filter(x) for x in uses) and len(defs.defs.get(r, [])) == 1:
+                        good += 1
+                        continue
+                still.append(g_)
+            opens = still
+        if definite:
+            pass
+        elif opens:
+            run.incomplete("IDX/real-corners", c, where(f, opens[0]), f"read of the corner table {norm(opens[0])[:60]} is neither restricted to the real corners nor seen to reach a plain mean: idiom not recognised")
         elif good:
             run.holds("IDX/real-corners", c, where(f, gathers[0]), f"corners gathered as {fn_param}[f, 0:n_nodes_per_face[f]] ({good} gather(s))")
         else:
